@@ -20,7 +20,7 @@ def resSys : Res Sys Out → Sys
 theorem setAlive_w (s : Sys) (x : Nat) (b : Bool) : (setAlive s x b).w = s.w := rfl
 
 /-- the world after a protocol call is the world after the corresponding history call -/
-theorem api_step_world (ac : ApiCfg) (s : Sys) (op : Op) (f : List Nat) (m : MOp Int) (A : List Nat) (h : toMOp s op = some m) :
+theorem api_step_world (ac : ApiCfg) (s : Sys) (op : Op) (f : List Nat) (m : MOp Int) (A : List Nat) (h : toMOp ac s op = some m) :
     resWorld (s.step ac op f) = (System.step ac.cfg ⟨s.w, A⟩ (m, f)).w := by
   have hb := bridge ac s op m { s.w with faults := f } rfl h
   unfold Sys.step System.step
@@ -38,7 +38,7 @@ theorem api_step_world (ac : ApiCfg) (s : Sys) (op : Op) (f : List Nat) (m : MOp
 
 /-- ONE protocol call keeps the system invariant -/
 theorem api_step_sys (ac : ApiCfg) (U : List Nat) (hpol : StrongPolicy ac.cfg) (s : Sys) (op : Op) (f : List Nat) (m : MOp Int) (A : List Nat)
-    (h : toMOp s op = some m) (hs : SysAll ac.cfg s.w U A) (hv : m.valid ac.cfg U ⟨s.w, A⟩) :
+    (h : toMOp ac s op = some m) (hs : SysAll ac.cfg s.w U A) (hv : m.valid ac.cfg U ⟨s.w, A⟩) :
     SysAll ac.cfg (resWorld (s.step ac op f)) U (System.step ac.cfg ⟨s.w, A⟩ (m, f)).A := by
   rw [api_step_world ac s op f m A h]
   exact step_sys ac.cfg U hpol ⟨s.w, A⟩ (m, f) hs hv
@@ -51,7 +51,7 @@ theorem getD_set (l : List Bool) (x y : Nat) (b : Bool) (hx : x < l.length) :
 
 /-- … and the driver's `alive` flags describe exactly the list of constructed containers the theorems carry along -/
 theorem api_step_alive (ac : ApiCfg) (s : Sys) (op : Op) (f : List Nat) (m : MOp Int) (A : List Nat)
-    (h : toMOp s op = some m) (hlen : s.alive.length = 4) (hA : ∀ c, c ∈ A ↔ s.isAlive c = true)
+    (h : toMOp ac s op = some m) (hlen : s.alive.length = 4) (hA : ∀ c, c ∈ A ↔ s.isAlive c = true)
     (hx : ∀ x, (match op with | .new x _ | .newv x _ _ _ | .newn x _ _ | .newr x _ _ _ | .newg x _ _ | .newc x _ _ | .newm x _ _ | .del x => x | _ => 0) = x → x < 4) :
     ∀ c, c ∈ (System.step ac.cfg ⟨s.w, A⟩ (m, f)).A ↔ (resSys (s.step ac op f)).isAlive c = true := by
   have hb := bridge ac s op m { s.w with faults := f } rfl h
@@ -96,7 +96,7 @@ theorem api_step_alive (ac : ApiCfg) (s : Sys) (op : Op) (f : List Nat) (m : MOp
     | newg x a vs => injection h with h; subst h; show c ∈ x :: A ↔ (setAlive _ x true).isAlive c = true; exact Iff.trans (by simp [hA]) (born _ x rfl (hx x rfl)).symm
     | newc x y a =>
       cases a with
-      | none => cases h
+      | none => injection h with h; subst h; show c ∈ x :: A ↔ (setAlive _ x true).isAlive c = true; exact Iff.trans (by simp [hA]) (born _ x rfl (hx x rfl)).symm
       | some a => injection h with h; subst h; show c ∈ x :: A ↔ (setAlive _ x true).isAlive c = true; exact Iff.trans (by simp [hA]) (born _ x rfl (hx x rfl)).symm
     | newm x y a =>
       cases a with
@@ -157,8 +157,8 @@ theorem api_step_alive (ac : ApiCfg) (s : Sys) (op : Op) (f : List Nat) (m : MOp
       injection h with h; subst h
       show c ∈ x :: A ↔ (setAlive _ x true).isAlive c = true; exact Iff.trans (by simp [hA]) (born _ x rfl (hx x rfl)).symm
     | pbm x v => injection h with h; subst h; show c ∈ A ↔ Sys.isAlive _ c = true; exact Iff.trans (hA c) (same _ rfl).symm
-    | «at» x i => cases h
-    | get x i => cases h
+    | «at» x i => injection h with h; subst h; show c ∈ A ↔ Sys.isAlive _ c = true; exact Iff.trans (hA c) (same _ rfl).symm
+    | get x i => injection h with h; subst h; show c ∈ A ↔ Sys.isAlive _ c = true; exact Iff.trans (hA c) (same _ rfl).symm
 
 theorem resWorld_eq (r : Res Sys Out) : resWorld r = (resSys r).w := by cases r <;> rfl
 
@@ -181,7 +181,7 @@ def apiRun (ac : ApiCfg) : Sys → List (Op × List Nat) → Sys
 /-- every call of the history has a counterpart in the history language and is valid there (in the state reached) -/
 def Covered (ac : ApiCfg) (U : List Nat) : Sys → List Nat → List (Op × List Nat) → Prop
   | _, _, [] => True
-  | s, A, (op, f) :: h => ∃ m, toMOp s op = some m ∧ m.valid ac.cfg U ⟨s.w, A⟩ ∧
+  | s, A, (op, f) :: h => ∃ m, toMOp ac s op = some m ∧ m.valid ac.cfg U ⟨s.w, A⟩ ∧
       Covered ac U (resSys (s.step ac op f)) (System.step ac.cfg ⟨s.w, A⟩ (m, f)).A h
 
 /-- along every covered history of protocol calls — each with an arbitrary fault list, continuing after throws — the
@@ -209,7 +209,7 @@ theorem api_reachable_sys (ac : ApiCfg) (hpol : StrongPolicy ac.cfg) :
       | new y a => injection hm with hm; subst hm; subst hxe; exact m4 _ hv.1
       | newc y z a =>
         cases a with
-        | none => cases hm
+        | none => injection hm with hm; subst hm; subst hxe; exact m4 _ hv.1
         | some a => injection hm with hm; subst hm; subst hxe; exact m4 _ hv.1
       | newm y z a =>
         cases a with
@@ -292,7 +292,7 @@ def apiReturned (ac : ApiCfg) (s : Sys) (op : Op) (f : List Nat) : Bool :=
   | .ok _ _ => true
   | .thrown _ _ => false
 
-theorem api_returned_iff (ac : ApiCfg) (s : Sys) (op : Op) (f : List Nat) (m : MOp Int) (A : List Nat) (h : toMOp s op = some m) :
+theorem api_returned_iff (ac : ApiCfg) (s : Sys) (op : Op) (f : List Nat) (m : MOp Int) (A : List Nat) (h : toMOp ac s op = some m) :
     apiReturned ac s op f = returned ac.cfg ⟨s.w, A⟩ (m, f) := by
   have hb := bridge ac s op m { s.w with faults := f } rfl h
   unfold apiReturned returned Sys.step
@@ -304,7 +304,7 @@ theorem api_returned_iff (ac : ApiCfg) (s : Sys) (op : Op) (f : List Nat) (m : M
 /-- the history-language calls of a covered protocol history, and "every call returned" -/
 def CoveredRet (ac : ApiCfg) (U : List Nat) : Sys → List Nat → List (Op × List Nat) → List (MOp Int) → Prop
   | _, _, [], ms => ms = []
-  | s, A, (op, f) :: h, ms => ∃ m ms', ms = m :: ms' ∧ toMOp s op = some m ∧ m.valid ac.cfg U ⟨s.w, A⟩ ∧ apiReturned ac s op f = true ∧
+  | s, A, (op, f) :: h, ms => ∃ m ms', ms = m :: ms' ∧ toMOp ac s op = some m ∧ m.valid ac.cfg U ⟨s.w, A⟩ ∧ apiReturned ac s op f = true ∧
       CoveredRet ac U (resSys (s.step ac op f)) (System.step ac.cfg ⟨s.w, A⟩ (m, f)).A h ms'
 
 /-- C01 for the driver's own runs: along a covered history of protocol calls that all returned (each with an arbitrary
